@@ -419,6 +419,11 @@ def _conclude(prop, meta, tier, seed, nshards, mode_list, results, failures, t0,
     if ev == 0 and not replaying:
         inconclusive.append("no case executed")
 
+    if not samples and ev:
+        # no shard recorded a case descriptor (every case was judged trivial): keep the
+        # evidence file well-formed and say so
+        samples = [{"note": "no non-trivial case descriptor was recorded in this run",
+                    "counters": dict(sorted(counters.items())[:8])}]
     coverage = {
         "evaluations": ev,
         "distinct_nontrivial": len(digs),
